@@ -255,6 +255,29 @@ class Run:
             pass
         elif kind.startswith('p_'):
             fired = self._apply_puppet(item)
+        elif kind == 'replay_note':
+            # a stale / duplicated hand-shake notification: one that the instance's own proxies did deliver earlier
+            inst = sim.instances.get(item['inst'])
+            notes = [r for r in sim.wire if r['dst'] == item['inst'] and r['src'] == item['inst']
+                     and r.get('comm_type') == 'SupvisorsNotification' and r.get('outcome') == 'ok'
+                     and (item.get('header') is None or r.get('header') == item['header'])]
+            fired = bool(notes) and inst is not None and inst.alive
+            if fired and item.get('prefer') == 'isolated':
+                # bias towards notifications about peers that are isolated by now (oldest first: other incarnation)
+                iso = [r for r in notes if r.get('origin') in inst.supvisors.context.instances
+                       and inst.supvisors.context.instances[r['origin']].state.name == 'ISOLATED']
+                notes = iso or notes
+            if fired:
+                r = notes[item.get('pick', 0) % len(notes)]
+                origin = next((list(sid.source) for i, sid in inst.supvisors.mapper.instances.items()
+                               if i == r.get('origin')), None)
+                if origin is None:
+                    fired = False
+                else:
+                    origin[2] = list(origin[2])
+                    import json
+                    sim.client_call(item['inst'], 'supervisor.sendRemoteCommEvent',
+                                    ['SupvisorsNotification', json.dumps((origin, (r['header'], r['body'])))])
         else:
             raise kernel.HarnessError('unknown plan item %r' % (item,))
         if fired:
